@@ -80,6 +80,24 @@ Round 4 layers (kinds e-j of ROUND4_BRIEF.md):
         reached only by a native datetime of another year (not exercised: no independent statement about it)
       _calculate_solar_time_by_doy: raises NotImplementedError, no caller.
 
+Round 6 layer (class: two objects that stand for DIFFERENT KINDS OF YEAR interact - a simplification that
+compares objects, or ordinals of objects, of different calendars):
+  * the Sunpath (is_leap_year), its daylight-saving period (AnalysisPeriod.is_leap_year) and a DateTime argument
+    each carry their own calendar.  Oracle op `dst_mixed` runs all 8 mixes (counted oracle_mixed:S?P?D?): the
+    statement fixes the window by its dates, the two calendars number a date at most one day apart, so every clock
+    time further than a day from both ends (in either calendar) has a determined answer: is_daylight_saving_hour,
+    the flag and clock date-time of the sun, the sun of one hour earlier / of standard time, calculate_sun and
+    calculate_sun_from_moy naming the same time, sunrise / noon / sunset one hour later on the clock (inside) or
+    unchanged (outside) through calculate_sunrise_sunset and _from_datetime; a noon DateTime of the other year
+    kind names the same day (never a day off).  The band within a day of an end is not judged
+    (C11_dst_other_calendar_band_counterexample).  History `check` steps dst_window / dst_shift on an object whose
+    period is of the other calendar are judged by the same clauses instead of being skipped.
+    Lean: C11_moy_other_calendar, C11_dst_changes_only_at_ends, C11_dst_other_calendar, C11_dst_year_agnostic.
+    Sites of the class in the anchored code: is_daylight_saving_hour (period ends vs datetime), the leap rebuild
+    of calculate_sun_from_date_time / calculate_sunrise_sunset_from_datetime (DateTime vs Sunpath),
+    _datetime_from_day_and_hour (day start rebuilt in the Sunpath's calendar), _calculate_solar_geometry
+    (datetime.year; compared with the model only).
+
 Producers and their consumers (each consumer is exercised by the op named in brackets):
   is_daylight_saving_hour      -> calculate_sun_from_date_time [sun, dst_shift], calculate_sun [csun, dst_shift
                                   entry points], calculate_sun_from_hoy / _from_moy [shoy, smoy, dst_shift entry
@@ -143,7 +161,10 @@ RULE = ('correspondence: Float instance of the model vs the real methods at the 
         'Fraction / Decimal; the Sunpath made by constructor, keywords, from_location, strings, setters on a default '
         'or re-used object; native datetime arguments; geometry consumers with every argument off its default '
         'against own projection formulas (op geometry); results edited in place, second object (op alias); '
-        'branches of the anchored functions counted under branch:*.')
+        'branches of the anchored functions counted under branch:*.  Round 6: Sunpath, daylight-saving period and '
+        'DateTime argument of every mix of year kinds (op dst_mixed): clock times further than a day from both ends '
+        'of the period are flagged / shifted / unaffected as the dates say, sunrise-noon-sunset move by one hour or '
+        'not at all, a noon DateTime of the other year kind names the same day.')
 TRUSTED_BASE = [
     'modelled, not verified: CPython float arithmetic and libm = Lean Float primitives on this machine (the '
     'model is compared with the code on every generated case; the rounded minute of sunrise/sunset is compared '
@@ -1136,6 +1157,181 @@ def _check_dst_shift(inp, sp=None):
     return None
 
 
+# Round 6 (class: two objects that stand for different kinds of year interact).  The Sunpath (is_leap_year), its
+# daylight-saving period (AnalysisPeriod.is_leap_year) and a DateTime argument each carry their own calendar; the
+# anchored code compares year-agnostic ordinals (minutes of the year) of objects that may come from different
+# calendars.  The statement fixes the window by its dates: read in either calendar the two ends and the moment
+# keep their order, and the ordinals of the two calendars are at most one day apart (29 Feb), so for every moment
+# further than a day from both ends the answer is determined whatever the mix of calendars is.
+
+_MIXED_BAND = 1440 + 61
+
+
+def _mixed_expect(p6, month, day, hour, minute):
+    """True / False: the moment is inside / outside the period in BOTH calendars and further than a day from both
+    ends; None: not judged (within the band of an end, or a date that one calendar lacks)."""
+    ans = set()
+    for k in (False, True):
+        try:
+            t = _moy_of(k, month, day, hour, minute)
+            st, en = _moy_of(k, p6[0], p6[1], p6[2]), _moy_of(k, p6[3], p6[4], p6[5])
+        except ValueError:
+            return None
+        n = _ymin(k)
+        for e in (st, en):
+            if min((t - e) % n, (e - t) % n) <= _MIXED_BAND:
+                return None
+        ans.add((t - st) % n < (en - st) % n)
+    return ans.pop() if len(ans) == 1 else None
+
+
+def _mixed_times_from_moys(leap, moys):
+    out = []
+    for m in moys:
+        r = _ref(leap, m % _ymin(leap))
+        out.append([r.month, r.day, r.hour, r.minute])
+    return out
+
+
+def _check_dst_mixed(inp, sp=None):
+    """Sunpath, daylight-saving period and DateTime argument of any mix of year kinds ('leap', 'pleap', 'dleap'):
+    a clock time clearly inside the period is flagged and sees the sun of one hour earlier standard time, a clock
+    time clearly outside is unaffected; sunrise / noon / sunset of a day clearly inside are one hour later on the
+    clock than without the period, of a day clearly outside unchanged."""
+    from ladybug.dt import DateTime
+    leap = bool(inp.get('leap'))
+    pleap = bool(inp.get('pleap', leap))
+    dleap = bool(inp.get('dleap', leap))
+    solar = bool(inp.get('solar'))
+    p6 = tuple(inp['period'][:6])
+    p = p6 + (pleap, inp.get('pform', 'num'))
+    c = (inp.get('lat', 0.0), inp.get('lon', 0.0), inp.get('tz', 0.0), inp.get('north', 0.0), leap)
+    sp = sp or _sunpath(c, p)
+    sp0 = _sunpath(c, None)
+    mix = 'S%dP%dD%d' % (leap, pleap, dleap)
+    for (month, day, hour, minute) in inp['times']:
+        want = _mixed_expect(p6, month, day, hour, minute)
+        if want is None:
+            _COUNT('oracle_mixed_time:not_judged')
+            continue
+        _COUNT('oracle_mixed_time:' + ('inside' if want else 'outside'))
+        when = '%d/%d %02d:%02d (%s-year DateTime, %s-year Sunpath, %s-year period %r)' % (
+            month, day, hour, minute, 'leap' if dleap else 'normal', 'leap' if leap else 'normal',
+            'leap' if pleap else 'normal', p6)
+        sig = {'mix': mix, 'period': _kind(p6), 'inside': want, 'solar': solar}
+        got = bool(sp.is_daylight_saving_hour(_dt(month, day, hour, minute, dleap)))
+        if got != want:
+            return {'required': '%s: daylight saving = %s (more than a day from both ends in either calendar)'
+                    % (when, want), 'observed': 'is_daylight_saving_hour = %s' % got, 'sig': dict(sig, what='window')}
+        s = sp.calculate_sun_from_date_time(_dt(month, day, hour, minute, dleap), solar)
+        if bool(s.is_daylight_saving) != want:
+            return {'required': '%s: is_daylight_saving = %s' % (when, want), 'observed': s.is_daylight_saving,
+                    'sig': dict(sig, what='flag')}
+        d = s.datetime
+        if (d.month, d.day, d.hour, d.minute) != (month, day, hour, minute):
+            return {'required': 'the sun keeps its clock date-time %s' % when, 'observed': str(d),
+                    'sig': dict(sig, what='datetime')}
+        if dleap == leap:
+            for name, fn in (('calculate_sun', lambda: sp.calculate_sun(month, day, hour + minute / 60.0, solar)),
+                             ('calculate_sun_from_moy',
+                              lambda: sp.calculate_sun_from_moy(_moy_of(leap, month, day, hour, minute), solar))):
+                try:
+                    t = _sun_tuple(fn())
+                except Exception as e:
+                    t = 'raises %s' % type(e).__name__
+                if t != _sun_tuple(s):
+                    return {'required': '%s: %s names the same clock time as calculate_sun_from_date_time: %r'
+                            % (when, name, _sun_tuple(s)), 'observed': t,
+                            'sig': dict(sig, what='entry-points-differ', entry=name)}
+        if not want:
+            s0 = sp0.calculate_sun_from_date_time(DateTime(month, day, hour, minute, dleap), solar)
+            if (s.altitude, s.azimuth) != (s0.altitude, s0.azimuth):
+                return {'required': '%s outside the period: the sun of standard time (%r, %r)'
+                        % (when, s0.altitude, s0.azimuth), 'observed': (s.altitude, s.azimuth),
+                        'sig': dict(sig, what='outside-changed')}
+        else:
+            # one hour earlier in the calendar the Sunpath reads the date in (a leap-year Sunpath re-reads a
+            # normal-year DateTime in its own calendar: the hour before 1 Mar 00:30 is then 29 Feb 23:30)
+            eff = True if leap else dleap
+            moy = _moy_of(eff, month, day, hour, minute)
+            r1 = _ref(eff, (moy - 60) % _ymin(eff))
+            s1 = sp0.calculate_sun_from_date_time(DateTime(r1.month, r1.day, r1.hour, r1.minute, eff), solar)
+            tol = 0.1 if moy < 60 else 0.05
+            sep = _circ(s.azimuth, s1.azimuth) * math.cos(math.radians(s1.altitude))
+            if abs(s.altitude - s1.altitude) > 2 * tol or sep > 2 * tol:
+                return {'required': '%s inside the period: the sun of %s standard time (altitude %.4f azimuth %.4f)'
+                        % (when, r1.strftime('%d %b %H:%M'), s1.altitude, s1.azimuth),
+                        'observed': 'altitude %.4f azimuth %.4f' % (s.altitude, s.azimuth),
+                        'sig': dict(sig, what='not-one-hour-earlier')}
+        # the day of the moment: sunrise / noon / sunset on the clock
+        if abs(c[2] - c[1] / 15.0) > 2.0 if c[2] is not None else False:
+            continue
+        day_w = [_mixed_expect(p6, month, day, h, mi) for (h, mi) in ((0, 0), (12, 0), (23, 59))]
+        try:
+            prev, nxt = _ref(False, (_moy_of(False, month, day) - 1440) % _ymin(False)), \
+                _ref(False, (_moy_of(False, month, day) + 1440) % _ymin(False))
+        except ValueError:
+            continue
+        day_w += [_mixed_expect(p6, prev.month, prev.day, 12, 0), _mixed_expect(p6, nxt.month, nxt.day, 12, 0)]
+        if any(w is None for w in day_w) or len(set(day_w)) != 1:
+            continue
+        dep = inp.get('dep', 0.5334)
+        routes = [('calculate_sunrise_sunset', lambda o: o.calculate_sunrise_sunset(month, day, dep, solar)),
+                  ('calculate_sunrise_sunset_from_datetime',
+                   lambda o: o.calculate_sunrise_sunset_from_datetime(DateTime(month, day, 12, 0, dleap), dep, solar))]
+        ns = _ymin(leap)
+        own = None
+        for name, route in routes:
+            try:
+                base = route(sp0)       # the same call on the Sunpath without a period
+            except Exception:
+                continue
+            fn = lambda: route(sp)
+            try:
+                rs = fn()
+            except Exception as e:
+                return {'required': '%s: %s answers as without the period (%s)' % (when, name, _show_rs(base)),
+                        'observed': 'raises %s' % type(e).__name__, 'sig': dict(sig, what='riseset-raises', entry=name)}
+            for key in ('sunrise', 'noon', 'sunset'):
+                a, b = base[key], rs[key]
+                ok = (a is None) == (b is None)
+                if ok and a is not None:
+                    try:
+                        ma = _moy_of(leap, a.month, a.day, a.hour, a.minute)
+                        mb = _moy_of(leap, b.month, b.day, b.hour, b.minute)
+                    except ValueError:
+                        continue
+                    delta = (mb - ma - (60 if want else 0) + ns // 2) % ns - ns // 2
+                    ok = abs(delta) <= 1
+                if not ok:
+                    return {'required': '%s: %s of the day %s the period = %s without the period %s'
+                            % (when, key, 'inside' if want else 'outside', _show_odt(a),
+                               'plus one hour' if want else 'unchanged'),
+                            'observed': '%s: %s' % (name, _show_odt(b)),
+                            'sig': dict(sig, what='riseset-' + key, entry=name)}
+            if name == 'calculate_sunrise_sunset':
+                own = rs
+            elif dleap != leap and own is not None:
+                # a noon DateTime of the other year kind names the same day: the answers are those of
+                # (month, day) in the Sunpath's own calendar up to one day of solar motion, never a day off
+                for key in ('sunrise', 'noon', 'sunset'):
+                    a, b = own[key], rs[key]
+                    if a is None or b is None:
+                        continue
+                    try:
+                        ma = _moy_of(leap, a.month, a.day, a.hour, a.minute)
+                        mb = _moy_of(leap, b.month, b.day, b.hour, b.minute)
+                    except ValueError:
+                        continue
+                    delta = (mb - ma + ns // 2) % ns - ns // 2
+                    if abs(delta) > 360 or (key == 'noon' and (b.month, b.day) != (month, day)):
+                        return {'required': '%s: %s for a noon DateTime of the other year kind is the %s of %d/%d (%s)'
+                                % (when, key, key, month, day, _show_odt(a)),
+                                'observed': '%s: %s' % (name, _show_odt(b)),
+                                'sig': dict(sig, what='other-calendar-day-' + key, entry=name)}
+    return None
+
+
 def _rs(inp, sp=None):
     c, p = _cfg_of(inp), _per_of(inp)
     sp = sp or _sunpath(c, p)
@@ -1868,7 +2064,16 @@ def _history_check(sp, est, op):
     name, params = op[1], op[2]
     p = est['period']
     if p is not None and bool(p[6]) != bool(est['leap']):
-        return 'skipped'            # the two calendars differ: the window is not defined by the statement
+        # the two calendars differ: the statement fixes the answer further than a day from the ends (round 6)
+        if name not in ('dst_window', 'dst_shift'):
+            return 'skipped'
+        inp = {'lat': est['lat'], 'lon': est['lon'], 'tz': est['tz'], 'north': est['north'], 'leap': est['leap'],
+               'pleap': bool(p[6]), 'dleap': est['leap'], 'period': list(p[:6]), 'solar': bool(params.get('solar')),
+               'times': _mixed_times_from_moys(est['leap'], params['moys'][:60] if name == 'dst_window'
+                                               else params['moys'])}
+        if len(p) > 7:
+            inp['pform'] = p[7]
+        return _check_dst_mixed(inp, sp=sp)
     if name in ('riseset', 'dayarc', 'geometry') and not _in_domain(est):
         return 'skipped'
     inp = dict(params, lat=est['lat'], lon=est['lon'], tz=est['tz'], north=est['north'], leap=est['leap'])
@@ -2360,6 +2565,12 @@ def _observe(op, inp):
         return ' | '.join(_digest(o) for o in _hist_outs(inp))
     if op == 'order':
         return ''
+    if op == 'dst_mixed':
+        c = _cfg_of(inp)
+        p = tuple(inp['period'][:6]) + (bool(inp.get('pleap', c[4])), inp.get('pform', 'num'))
+        sp = _sunpath(c, p)
+        dleap = bool(inp.get('dleap', c[4]))
+        return ' | '.join(_apply(sp, ['sun', bool(inp.get('solar')), dleap, t[0], t[1], t[2], t[3]]) for t in inp['times'])
     c, p = _cfg_of(inp), _per_of(inp)
     leap, solar = c[4], bool(inp.get('solar'))
     sp = _sunpath(c, p)
@@ -2494,7 +2705,7 @@ def _order_slice(ctx):
     cases = [c for c in CORPUS if not (c[0] == 'history' and c[1].get('known'))
              and not (c[0] == 'dst_window' and len(c[1]['moys']) > 3000)]
     gen = _oracle_cases(ctx, corpus=False, counting=False)
-    want = {'riseset': 14, 'dst_window': 4, 'dst_shift': 6, 'analemma': 4, 'dayarc': 6, 'history': 16}
+    want = {'riseset': 14, 'dst_window': 4, 'dst_mixed': 4, 'dst_shift': 6, 'analemma': 4, 'dayarc': 6, 'history': 16}
     if not ctx.quick:
         want = dict((k, 3 * v) for k, v in want.items())
     have = dict((k, 0) for k in want)
@@ -2588,7 +2799,7 @@ def _COUNT(key):
         _SUBCTX[0].count(key)
 
 
-CHECKS = {'geometry': _check_geometry, 'alias': _check_alias, 'dst_window': _check_dst_window, 'dst_shift': _check_dst_shift, 'riseset': _check_riseset,
+CHECKS = {'dst_mixed': _check_dst_mixed, 'geometry': _check_geometry, 'alias': _check_alias, 'dst_window': _check_dst_window, 'dst_shift': _check_dst_shift, 'riseset': _check_riseset,
           'riseset_dt': _check_riseset_dt, 'analemma': _check_analemma, 'dayarc': _check_dayarc,
           'history': _check_history, 'order': _check_order}
 
@@ -2653,6 +2864,19 @@ CORPUS = [
                   'end': 9, 'steps': 2, 'month': 12, 'day': 21}),
     ('alias', dict(NYC, period=[3, 8, 2, 11, 1, 2], pform='text', dep=0.5334, start=3, end=9, steps=1, hour=9, minute=0,
                    month=6, day=21)),
+    # --- round 6: Sunpath, period and DateTime argument of different year kinds (further than a day from the ends)
+    ('dst_mixed', dict(NYC, leap=True, pleap=False, dleap=True, period=[3, 8, 2, 11, 1, 2], dep=0.5334,
+                       times=[[4, 15, 9, 0], [6, 21, 12, 0], [10, 29, 1, 30], [1, 15, 12, 0], [12, 21, 8, 0], [3, 5, 12, 0],
+                              [11, 4, 12, 0], [2, 28, 23, 59], [3, 1, 0, 0]])),
+    ('dst_mixed', {'lat': -33.87, 'lon': 151.22, 'tz': 10.0, 'leap': False, 'pleap': True, 'dleap': False,
+                   'period': [10, 4, 2, 4, 5, 3], 'pform': 'text', 'dep': 0.8333,
+                   'times': [[6, 21, 12, 0], [7, 1, 0, 0], [12, 21, 12, 0], [1, 1, 0, 0], [12, 31, 23, 59], [4, 1, 12, 0],
+                             [4, 8, 12, 0], [10, 1, 12, 0], [10, 7, 12, 0]]}),
+    ('dst_mixed', dict(NYC, leap=False, pleap=False, dleap=True, period=[3, 8, 2, 11, 1, 2], solar=True,
+                       times=[[4, 15, 9, 0], [6, 21, 12, 0], [1, 15, 12, 0], [12, 21, 8, 0], [3, 10, 12, 0], [10, 30, 12, 0]])),
+    ('dst_mixed', {'lat': 51.5, 'lon': -0.12, 'tz': 0.0, 'leap': True, 'pleap': True, 'dleap': False,
+                   'period': [3, 26, 1, 10, 29, 1], 'pform': 'dict',
+                   'times': [[3, 20, 12, 0], [3, 29, 12, 0], [7, 1, 0, 30], [10, 26, 12, 0], [11, 1, 12, 0], [2, 28, 12, 0]]}),
     # --- histories on one object
     # a period given in the leap calendar, the object used for a normal year first, then switched
     ('history', {'init': {'lat': -33.87, 'lon': 151.22, 'tz': 10.0, 'north': 0.0, 'leap': False,
@@ -2779,6 +3003,27 @@ def _oracle_cases(ctx, corpus=True, counting=True):
         cnt('oracle_pform:' + pform)
         yield 'dst_window', {'leap': leap, 'period': list(pp), 'pform': pform,
                              'moys': list(range(rng.randrange(180), n, 180)) + _dst_boundary_moys(pp, leap)}
+    # round 6: every mix of year kinds of Sunpath / period / DateTime argument
+    for i in range(ctx.n(96, 960) * mult):
+        leap, pleap, dleap = bool(i & 1), bool(i & 2), bool(i & 4)
+        lat, lon = rng.uniform(-80.0, 80.0), rng.uniform(-180.0, 180.0)
+        pp = _rand_period(rng, pleap)
+        pform, pp = pp[7], pp[:6]
+        times = []
+        for (m, d, h) in (pp[:3], pp[3:6]):
+            b = _moy_of(False, m, d, h)
+            for k in (-2 * 1440 - 90, -1440 - 62, 1440 + 62, 2 * 1440 + 90, rng.randrange(-6000, 6000)):
+                r = _ref(False, (b + k) % 525600)
+                times.append([r.month, r.day, r.hour, r.minute])
+        for _ in range(6):
+            r = _ref(False, rng.randrange(525600))
+            times.append([r.month, r.day, r.hour, r.minute])
+        times += [[1, 1, 0, 0], [12, 31, 23, 59], [2, 28, 23, rng.randrange(60)], [3, 1, 0, rng.randrange(60)]]
+        cnt('oracle_mixed:S%dP%dD%d' % (leap, pleap, dleap))
+        cnt('oracle_mixed_period:' + _kind(pp))
+        yield 'dst_mixed', {'lat': lat, 'lon': lon, 'tz': _oracle_tz(rng, lon), 'leap': leap, 'pleap': pleap,
+                            'dleap': dleap, 'period': list(pp), 'pform': pform, 'times': times,
+                            'solar': rng.random() < 0.2, 'dep': rng.choice(DEPS)}
     # the shift
     for _ in range(ctx.n(120, 1500) * mult):
         lat, lon = rng.uniform(-80.0, 80.0), rng.uniform(-180.0, 180.0)
